@@ -140,7 +140,7 @@ def build():
                 "thorough_cmd": "bin/check %s --tier thorough -q" % p,
                 "evidence_file": "/verif/evidence/%s.json" % p,
                 "replay_cmd_template": "bin/check --replay {path}",
-                "engine": c.get("engine", "crosshair+z3"),
+                "engine": c.get("engine", "crosshair+z3" + (" and fpsym+z3" if p in ("C01", "C02", "C03", "C04", "C05", "C08", "C12") else "")),
                 "level_claimed": {"category": "model_checking", "text": c["text"],
                                   "design_ref": "DESIGN.md section " + c["design"]},
                 "level_note": c.get("note", TRUST),
@@ -169,6 +169,11 @@ def build():
              "serves_properties": sorted(CHECKS),
              "kind_free_text": "symbolic execution of the live /repo/d42 modules with CrossHair 0.0.110, "
                                "z3 5.1.0 deciding every path; own driver, stubs, oracles and replayer"},
+            {"name": "fpsym+z3(+cvc5)", "path": "/verif/engine/fpsym.py",
+             "serves_properties": ["C01", "C02", "C03", "C04", "C05", "C08", "C12"],
+             "kind_free_text": "own operator-overloading executor: the real Random.random_float, Validator.visit_float and "
+                               "Substitutor.visit_float run on operands carrying z3 Float64 terms, one pure QF_FP query per "
+                               "path (cvc5 binary as second solver in the thorough tier), models replayed on the real code"},
         ],
         "checks": checks,
         "not_applicable": na,
